@@ -112,4 +112,5 @@ def choose(
     choices = numpoly.aspolynomial(choices)
     a = numpy.asarray(a)
     result = numpy.choose(a, choices=choices.values, out=out, mode=mode)
+    result = numpy.asarray(result)
     return numpoly.aspolynomial(result, names=choices.indeterminants)
